@@ -341,6 +341,12 @@ def handleAt (inp out : Toks) : String :=
     -- zooms beyond the property's quantifier (0..30): correspondence only.  From zoom 32 on
     -- `uint32(1) << z` is 0 (the `max != 0` guard of `At`) and `Fraction`'s `maxtiles` is 0.
     if z > 30 then (if z ≥ 32 then "ok at-zoom-beyond shift-wrapped" else "ok at-zoom-beyond") else
+    -- a NaN latitude is not a latitude: correspondence only (`Fraction` returns NaN, `uint32(NaN)` is
+    -- whatever the platform makes of it)
+    if lat.isNaN then "ok at-lat-nan correspondence-only" else
+    -- longitudes outside [-180, 180] are outside the quantifier: the longitude clause is not judged
+    -- (validity, the latitude / clamp clauses, the centre clause and the bit-exact twin all are)
+    let lonIn := -180 ≤ lon && lon ≤ 180
     let n := 2^z
     -- property: the tile is valid
     if !(tx < n && ty < n) then "propfail at-valid" else
@@ -352,7 +358,8 @@ def handleAt (inp out : Toks) : String :=
       -- documented situation (see the analysis above), model and implementation in agreement
       let lonKnown := "propfail at-bound-lon column-edge-rounding"
       let lonV : Option String :=
-        if bminx ≤ lon && lon ≤ bmaxx then none
+        if !lonIn then none
+        else if bminx ≤ lon && lon ≤ bmaxx then none
         else if same && lon < bminx && lon ≤ bmaxx && lonEdgeRounding lonb z tx then some lonKnown
         else some "propfail at-bound-lon"
       let clamped := lat < -85.0511 || lat > 85.0511
@@ -373,6 +380,8 @@ def handleAt (inp out : Toks) : String :=
           (if lat > 85.0511 && ty != 0 then "propfail at-clamp-north"
            else if lat < -85.0511 && ty != n - 1 then "propfail at-clamp-south"
            else if !centreOk then cmb
+           -- `beyond-pole`: |lat| > 90, where a clamp decided on sin(lat) instead of lat folds back
+           else if lat.abs > 90 then (if lat.isInf then "ok clamped beyond-pole inf" else "ok clamped beyond-pole")
            else "ok clamped")
         else
           -- the y fraction goes through sin/log: judged exactly away from row edges, within `tolLat` next to one
@@ -387,7 +396,7 @@ def handleAt (inp out : Toks) : String :=
           else "ok at"
       -- a failure that is NOT a known finding is never absorbed by the label of one
       (match lonV with
-       | none => rest
+       | none => if !lonIn && rest.startsWith "ok" then rest ++ " lon-beyond" else rest
        | some l =>
          if l != lonKnown then l
          else if rest.startsWith "propfail" && rest != polarKnown then rest
